@@ -1,5 +1,6 @@
 import BlackIt.Properties.C03
 import BlackIt.Lemmas.Pso
+import BlackIt.Model.Cors
 import Mathlib.Data.List.Perm.Basic
 import Mathlib.Data.List.Nodup
 import Mathlib.Data.List.Range
@@ -434,3 +435,97 @@ example :
 end Examples
 
 end BlackIt.Pso
+
+
+/-!
+## CORS: the radius schedule and the box/cube maps (`BlackIt/Model/Cors.lean`, radii tied bit for bit to `CORSSampler` by `harness/props/c16.py`)
+-/
+namespace BlackIt.Cors
+
+/-- **the density-decay counter has no gaps and no repeats over the life of a sampler object**: the points proposed by calls
+`0 … n-1` carry the indices `0 … n·bs - 1`, in order — whatever histories the calls were handed -/
+theorem indices_concat (bs n : Nat) : (List.range n).flatMap (fun b => indices b bs) = List.range (n * bs) := by
+  induction n with
+  | zero => simp
+  | succ n ih =>
+    rw [List.range_succ, List.flatMap_append, ih]
+    simp only [List.flatMap_cons, List.flatMap_nil, List.append_nil, indices]
+    rw [Nat.succ_mul, List.range_add]
+
+section Run
+variable {α : Type} [Sub α] [Mul α] [Div α]
+
+/-- what call number `c` of one object computes: radii for the indices `c·bs … c·bs + bs - 1` with the history length it is handed,
+and `nSeed + j` distance constraints for its `j`-th minimisation -/
+theorem run_call (o : Ops α) (cfg : Cfg α) (dims bs : Nat) (b0 : Nat) (ns : List Nat) (c : Nat) (n : Nat) (h : ns[c]? = some n) :
+    (run o cfg dims bs b0 ns)[c]? =
+      some ((indices (b0 + c) bs).map (radius o cfg (ballVolume o dims) dims n), (List.range bs).map (fun j => n + j)) := by
+  induction ns generalizing b0 c with
+  | nil => simp at h
+  | cons m ns ih =>
+    cases c with
+    | zero =>
+      simp only [List.getElem?_cons_zero, Option.some.injEq] at h
+      subst h
+      simp [run, sampleBatch]
+    | succ c =>
+      simp only [List.getElem?_cons_succ] at h
+      simp only [run, List.getElem?_cons_succ, sampleBatch]
+      rw [ih (b0 + 1) c h]
+      have : b0 + 1 + c = b0 + (c + 1) := by omega
+      rw [this]
+
+end Run
+
+section Maps
+variable {α : Type} [Field α] [LinearOrder α] [IsStrictOrderedRing α]
+
+/-- `cubetobox ∘ boxtocube` is the identity on every parameter whose bounds differ -/
+theorem cubeToBox_boxToCube (lo hi row : List α) (hne : ∀ b ∈ lo.zip hi, b.1 ≠ b.2) (hlen : row.length ≤ (lo.zip hi).length) :
+    cubeToBox lo hi (boxToCube lo hi row) = row := by
+  unfold cubeToBox boxToCube
+  generalize lo.zip hi = bnds at hne hlen
+  induction row generalizing bnds with
+  | nil => simp
+  | cons x row ih =>
+    cases bnds with
+    | nil => simp at hlen
+    | cons b bnds =>
+      simp only [List.zipWith_cons_cons, List.cons.injEq]
+      constructor
+      · have hb : b.2 - b.1 ≠ 0 := sub_ne_zero.mpr (Ne.symm (hne b List.mem_cons_self))
+        field_simp
+        ring
+      · exact ih bnds (fun c hc => hne c (List.mem_cons_of_mem _ hc)) (by simpa using hlen)
+
+/-- a point of the unit cube is mapped into the declared bounds -/
+theorem cubeToBox_in_bounds (lo hi row : List α) (hrow : ∀ y ∈ row, 0 ≤ y ∧ y ≤ 1) (hb : ∀ b ∈ lo.zip hi, b.1 ≤ b.2) (j : Nat) (v : α)
+    (hv : (cubeToBox lo hi row)[j]? = some v) : ∃ b, (lo.zip hi)[j]? = some b ∧ b.1 ≤ v ∧ v ≤ b.2 :=
+  BlackIt.Pso.zipWith_scale_between row (lo.zip hi) hrow hb j v hv
+
+/-- while fewer than `max_samples - 1` points have been proposed, the radius is positive — for any `pow` that maps positive bases to
+positive values (the contract of `**` on positive floats) -/
+theorem radius_pos (o : Ops α) (cfg : Cfg α) (v1 : α) (dims nSeed k : Nat)
+    (hof : ∀ n : Nat, o.ofNat n = (n : α)) (hpow : ∀ x y : α, 0 < x → 0 < o.pow x y)
+    (hk : k + 1 < cfg.maxSamples) (hrho : 0 < cfg.rho0) (hv : 0 < v1) (hn : 0 < nSeed + k) :
+    0 < radius o cfg v1 dims nSeed k := by
+  unfold radius
+  apply hpow
+  rw [hof, hof, hof, hof]
+  have h1 : (0 : α) < (cfg.maxSamples : α) - ((1 : Nat) : α) - (k : α) := by
+    have : ((k + 1 : Nat) : α) < (cfg.maxSamples : α) := by exact_mod_cast hk
+    push_cast at this ⊢
+    linarith
+  have h2 : (0 : α) < (cfg.maxSamples : α) - ((1 : Nat) : α) := by
+    have : (0 : α) ≤ (k : α) := Nat.cast_nonneg k
+    linarith
+  have h3 : (0 : α) < ((nSeed + k : Nat) : α) := by exact_mod_cast hn
+  exact div_pos (mul_pos hrho (hpow _ _ (div_pos h1 h2))) (mul_pos hv h3)
+
+end Maps
+
+/-! ### non-vacuity -/
+example : indices 2 3 = [6, 7, 8] := by decide
+example : (run (⟨fun n => (n : Rat), 3, fun x _ => x⟩ : Ops Rat) ⟨50, 1/2, 1⟩ 2 2 0 [5, 9]).map (·.2) = [[5, 6], [9, 10]] := by decide +kernel
+
+end BlackIt.Cors
